@@ -10,6 +10,7 @@ mod corpus;
 mod drv;
 mod streams;
 mod explore;
+mod capi;
 mod props;
 
 use std::cell::RefCell;
